@@ -1,38 +1,3 @@
-import Ysgo.Spec.FExpr
-/-! GENERATED by tools/numfacts from base_functions.go — do not edit -/
-namespace Ysgo.Generated
-/-- the numeric built-ins as written in the source: (name, parameters with their Go types, returned expression with local definitions inlined) -/
-def numBuiltinSrc : List (String × List (String × String) × FE) := [
-  ("round", [("f", "float64")], (.call1 "math.Round" (.var "f"))),
-  ("roundPlaces", [("f", "float64"), ("places", "int")], (.bin "/" (.call1 "math.Round" (.bin "*" (.var "f") (.call1 "math.Pow10" (.var "places")))) (.call1 "math.Pow10" (.var "places")))),
-  ("floor", [("f", "float64")], (.call1 "math.Floor" (.var "f"))),
-  ("ceil", [("f", "float64")], (.call1 "math.Ceil" (.var "f"))),
-  ("inc", [("f", "float64")], (.bin "+" (.call1 "floor" (.var "f")) (.lit 1))),
-  ("dec", [("f", "float64")], (.bin "-" (.call1 "ceil" (.var "f")) (.lit 1))),
-  ("decimal", [("f", "float64")], (.bin "-" (.var "f") (.call1 "integer" (.var "f")))),
-  ("integer", [("f", "float64")], (.call1 "math.Trunc" (.var "f")))
-]
-/-- the conditions under which the checked random built-ins refuse their arguments (local definitions inlined) -/
-def guardSrc : List (String × List (String × String) × FE) := [
-  ("checkedRandomRange", [("lowerBound", "int"), ("upperBound", "int")], (.lor (.lor (.cmp "<" (.var "upperBound") (.var "lowerBound")) (.cmp "<" (.bin "-" (.var "upperBound") (.var "lowerBound")) (.lit 0))) (.cmp "==" (.bin "-" (.var "upperBound") (.var "lowerBound")) (.const "math.MaxInt")))),
-  ("checkedDice", [("sides", "int")], (.cmp "<" (.var "sides") (.lit 1)))
-]
-/-- secondsToDuration of command_storer.go -/
-def durationSrc : List (String × List (String × String) × FE) := [
-  ("secondsToDuration", [("seconds", "float64")], (.ite (.cmp ">=" (.bin "*" (.var "seconds") (.conv "float64" (.const "time.Second"))) (.conv "float64" (.const "math.MaxInt64"))) (.conv "time.Duration" (.const "math.MaxInt64")) (.conv "time.Duration" (.bin "*" (.var "seconds") (.conv "float64" (.const "time.Second"))))))
-]
-/-- markup/processors.go processOrdinal: the cases of its switch in order (condition over the integer value n, plural case), and the case when none applies -/
-def ordinalSwitch : List (FE × String) := [
-  ((.land (.cmp "==" (.bin "%" (.var "n") (.lit 10)) (.lit 1)) (.cmp "!=" (.bin "%" (.var "n") (.lit 100)) (.lit 11))), "one"),
-  ((.land (.cmp "==" (.bin "%" (.var "n") (.lit 10)) (.lit 2)) (.cmp "!=" (.bin "%" (.var "n") (.lit 100)) (.lit 12))), "two"),
-  ((.land (.cmp "==" (.bin "%" (.var "n") (.lit 10)) (.lit 3)) (.cmp "!=" (.bin "%" (.var "n") (.lit 100)) (.lit 13))), "few")
-]
-def ordinalDefault : String := "other"
-/-- internal/rng: radix, toRadix36, the accumulation step of seedToInt64, IntBetween -/
-def rngSrc : List (String × List (String × String) × FE) := [
-  ("radix", [], (.bin "+" (.bin "-" (.bin "+" (.bin "-" (.lit 57) (.lit 48)) (.lit 122)) (.lit 97)) (.lit 2))),
-  ("toRadix36", [("r", "rune")], (.ite (.land (.cmp "<=" (.lit 48) (.var "r")) (.cmp "<=" (.var "r") (.lit 57))) (.conv "int64" (.bin "-" (.var "r") (.lit 48))) (.ite (.land (.cmp "<=" (.lit 97) (.var "r")) (.cmp "<=" (.var "r") (.lit 122))) (.conv "int64" (.bin "+" (.bin "-" (.var "r") (.lit 97)) (.bin "+" (.bin "-" (.lit 57) (.lit 48)) (.lit 1)))) (.fail)))),
-  ("seedToInt64.step", [("result", "int64"), ("v", "int64")], (.bin "+" (.bin "*" (.bin "+" (.bin "-" (.bin "+" (.bin "-" (.lit 57) (.lit 48)) (.lit 122)) (.lit 97)) (.lit 2)) (.var "result")) (.var "v"))),
-  ("IntBetween", [("lowerBound", "int"), ("upperBound", "int")], (.bin "+" (.var "lowerBound") (.call1 "rng.source.Intn" (.bin "+" (.bin "-" (.var "upperBound") (.var "lowerBound")) (.lit 1)))))
-]
-end Ysgo.Generated
+-- extractor failed
+#eval (panic! "extractor numfacts failed" : Nat)
+example : False := by trivial
